@@ -247,11 +247,15 @@ def run_check(check_id, tier, collect=False, plan_override=None):
     workdir = tempfile.mkdtemp(prefix="vcheck_%s_" % check_id, dir=os.path.join(BUILD_ROOT))
     workers = []
     extra = ["--collect", "--fork-each"] if collect else (["--fork-each"] if getattr(mod, "FORK_EACH", False) else [])
+    flavour_entries = collections.Counter()
     for p in plan:
         w = p.get("workers", NCPU)
         per = max(1, p["cases"] // w)
+        # a second plan entry of the same flavour needs its own file names (slot, result, hashes): tag them
+        tag = "" if flavour_entries[p["flavour"]] == 0 else "p%d" % flavour_entries[p["flavour"]]
+        flavour_entries[p["flavour"]] += 1
         for i in range(w):
-            workers.append(Worker(modname, p["flavour"], tier, i, verif_seed, per, workdir, extra + p.get("flags", [])))
+            workers.append(Worker(modname, p["flavour"], tier, i, verif_seed, per, workdir, extra + p.get("flags", []), tag=tag))
     wall_cap = float(os.environ.get("VERIF_WALL_CAP", getattr(mod, "WALL_CAP", {}).get(tier, 3000)))
     case_timeout = float(os.environ.get("VERIF_CASE_TIMEOUT", "120"))
     finished = []
